@@ -91,6 +91,10 @@ func hC16Stream() {
 	sink := p.sink
 	body := p.body
 	ok := true
+	// shape of the response path: 0 plain sink, 1 buffering decorator, 2 pass-through decorator,
+	// 3 plain sink with the handler writing every frame in two pieces
+	shape := verifChoose("writer", 4)
+	splitWrites := shape == 3
 	p.tr.methods[pipePath].handler = http.HandlerFunc(func(w http.ResponseWriter, r *http.Request) {
 		// ping-pong: read one request message, write one response message, ...
 		switch target {
@@ -123,7 +127,14 @@ func hC16Stream() {
 			}
 			if k < nResp {
 				before := len(sink.body)
-				w.Write(appendFrame(nil, 0, encodeMsg(codec, respMsgs[k])))
+				frame := appendFrame(nil, 0, encodeMsg(codec, respMsgs[k]))
+				if splitWrites && len(frame) > 6 {
+					// the handler (or a proxy in front of it) hands the frame over in two pieces
+					w.Write(frame[:6])
+					w.Write(frame[6:])
+				} else {
+					w.Write(frame)
+				}
 				frames, complete := refSplitFrames(sink.body)
 				verifAssert(sink.heads == 1, "C16: headers sent no later than the first message")
 				verifAssert(complete && len(frames) == k+1, "C16: response message k forwarded as soon as it is complete")
@@ -145,7 +156,7 @@ func hC16Stream() {
 	// the ResponseWriter the transcoder is given: the sink itself or a middleware's decorator around it
 	var writer http.ResponseWriter = p.sink
 	var buffered *bufDecorator
-	switch verifChoose("writer", 3) {
+	switch shape {
 	case 1:
 		buffered = &bufDecorator{inner: p.sink}
 		writer = buffered
